@@ -8,3 +8,9 @@ add("C19", "bounded-exhaustive enumeration of profiles + Hypothesis generation, 
     "and the rendered text/Markdown summary is parsed and checked for each distinct shown triple; random profiles to 1e9 and "
     "real Codebase-derived profiles beyond. Complete inside the bound, sampling outside it.",
     "trusts the row/verdict parser of the rendered summary and Python's Fraction arithmetic")
+
+add("C13", "bounded-exhaustive enumeration of pattern trees x sequences + Hypothesis, Brzozowski-derivative reference model",
+    "All 1731 pattern trees with <= 5 nodes x all 364 sequences of length <= 5 (thorough: 10560 trees x 3280 sequences of length <= 7) "
+    "are run through match, nfa_match and starts_with and compared with an independent derivative-based reference that is itself "
+    "cross-checked against Python's re on every run; random larger trees/sequences beyond. Complete inside the bound.",
+    "trusts vf/ref/regex.py (cross-checked against re) and, for sequences longer than 3, per-tree memoisation of the automaton build")
